@@ -170,10 +170,14 @@ def upsertLoop (H : HashAlg α) (idx : Nat) : (sibs : List α) → (h : Nat) →
     let p := if idx.testBit h then mkNode H s cur else mkNode H cur s
     upsertLoop H idx rest (h+1) p.hash (ns ++ [p])
 
+/-- the root `UpsertLeaf` starts from: the last root row, or the empty-tree root -/
+def lastRootHash (H : HashAlg α) (n : Nat) (db : TreeDb α) : α :=
+  match getLastRoot db with | none => zeroH H n | some r => r.hash
+
 /-- `UpdatableTree.UpsertLeaf` -/
 def upsertLeaf (H : HashAlg α) (n : Nat) (db : TreeDb α) (blockNum blockPos idx : Nat) (leaf : α) :
     Except TreeErr (α × TreeDb α) :=
-  let rootHash := match getLastRoot db with | none => zeroH H n | some r => r.hash
+  let rootHash := lastRootHash H n db
   let sibs := (getSiblings H n db.rht idx rootHash).1
   let (root, nodes) := upsertLoop H idx sibs 0 leaf []
   match storeRoot db { hash := root, index := idx, blockNum := blockNum, blockPos := blockPos } with
@@ -181,4 +185,23 @@ def upsertLeaf (H : HashAlg α) (n : Nat) (db : TreeDb α) (blockNum blockPos id
   | .ok db' => .ok (root, { db' with rht := storeNodes db'.rht nodes })
 
 end
+end Aggkit
+
+namespace Aggkit
+variable {α : Type} [DecidableEq α]
+
+/-- in-memory effect of an `AddLeaf` whose `storeRoot` / `storeNodes` statement fails:
+    the pre-phase and the loop have run (cache written), `lastIndex` is not incremented and no
+    rollback callback is registered -/
+def addLeafStoreFault (H : HashAlg α) (n : Nat) (t : AOT α) (db : TreeDb α) (idx : Nat) (leaf : α) : AOT α :=
+  let pre : Except TreeErr (AOT α) :=
+    if (idx : Int) ≠ t.lastIndex + 1 then initCache H n db else .ok t
+  match pre with
+  | .error _ =>
+    let li : Int := match getLastRoot db with | some r => r.index | none => -1
+    { t with lastIndex := li }
+  | .ok t =>
+    if (idx : Int) ≠ t.lastIndex + 1 then t else
+    { t with cache := (addLoop H idx n 0 t.cache leaf []).1 }
+
 end Aggkit
